@@ -1,7 +1,7 @@
 from reghelp import *
 
 CHECK = dict(
-    runs=runs3('h_sleep', (18, 9, 18), (96, 48, 160)),
+    runs=runs3('h_sleep', (18, 9, 18), (64, 32, 96)),
     par=6,
     level='exploration',
     rule='one evaluation = one seeded execution: 4-200 sleepers per vCPU on 1-4 vCPUs with zero / tied / random / infinite deadlines and yields, interrupters on the same vCPU, '
